@@ -43,7 +43,12 @@ func (c *scriptCurve) Evaluate() (int, error) {
 func (c *scriptCurve) CurrentValue() int { return c.value }
 
 type world struct {
-	dir   string
+	dir string
+	// hwmon / file fans: `dir` is a symbolic link (as /sys/class/hwmon/hwmonN is) to the real device directory `real`;
+	// a re-enumeration of the device (`w.dev ... reprobe=1`) re-points it to a fresh directory
+	real  string
+	gen   int
+	old   []string // real directories of earlier enumerations
 	fan   fans.Fan
 	dev   *verifhook.Device
 	ctl   *controller.VerifController
@@ -124,8 +129,66 @@ func touch(path string, present bool) {
 var garbageShapes = []string{"garbage\n", "\n", " \t\n", "4x\n", "\n\n", "0x1F\n"}
 var garbageCounter int
 
+var worldRegs = []struct {
+	name string
+	reg  verifhook.Reg
+}{{"pwm1", verifhook.RegPwm}, {"pwm1_enable", verifhook.RegMode}, {"fan1_input", verifhook.RegRpm}}
+
+// bind / unbind a register under the configured (symlinked) path and under the real path writes are resolved to
+func (w *world) bindReg(name string, reg verifhook.Reg, on bool) {
+	for _, d := range []string{w.dir, w.real} {
+		if d == "" {
+			continue
+		}
+		if on {
+			verifhook.Bind(d+"/"+name, w.dev, reg)
+		} else {
+			verifhook.Unbind(d + "/" + name)
+		}
+	}
+}
+
+func (w *world) unbindAll() {
+	for _, d := range append([]string{w.dir, w.real}, w.old...) {
+		if d == "" {
+			continue
+		}
+		for _, r := range worldRegs {
+			verifhook.Unbind(d + "/" + r.name)
+		}
+	}
+}
+
+// reprobe: the device is enumerated again (resume, driver re-probe): the configured path now leads to a NEW directory
+// whose registers hold whatever the firmware / another program left there; the old directory lingers on with the old
+// content (a ghost device nobody reads). Everything fan2go does has to reach the device the configured path leads to NOW.
+func (w *world) reprobe() {
+	if w.real == "" {
+		return
+	}
+	ghost := *w.dev
+	ghost.Log, ghost.LogOff, ghost.OnWrite, ghost.RpmGate, ghost.RpmEntered = nil, true, nil, nil, nil
+	w.gen++
+	newReal := fmt.Sprintf("%s.r%d", w.dir, w.gen)
+	_ = os.MkdirAll(newReal, 0755)
+	for _, r := range worldRegs {
+		if _, err := os.Stat(w.real + "/" + r.name); err == nil {
+			touch(newReal+"/"+r.name, true)
+			verifhook.Bind(w.real+"/"+r.name, &ghost, r.reg)
+			verifhook.Bind(newReal+"/"+r.name, w.dev, r.reg)
+		}
+	}
+	_ = os.Remove(w.dir)
+	_ = os.Symlink(newReal, w.dir)
+	w.old = append(w.old, w.real)
+	w.real = newReal
+}
+
 func (w *world) applyDev(a kv) {
 	d := w.dev
+	if _, ok := a["reprobe"]; ok {
+		w.reprobe()
+	}
 	for _, v := range a {
 		if v == "other:0" {
 			garbageCounter++
@@ -140,6 +203,8 @@ func (w *world) applyDev(a kv) {
 			d.Mode, _ = strconv.Atoi(v)
 		case "rpm":
 			d.Rpm, _ = strconv.Atoi(v)
+		case "glitch":
+			d.PwmReadGlitch, _ = strconv.Atoi(v)
 		case "resp":
 			d.Resp = parseResp(v)
 		case "pwmread":
@@ -155,21 +220,13 @@ func (w *world) applyDev(a kv) {
 		case "hasmode":
 			if w.kind == "hwmon" {
 				touch(w.dir+"/pwm1_enable", v == "1")
-				if v == "1" {
-					verifhook.Bind(w.dir+"/pwm1_enable", w.dev, verifhook.RegMode)
-				} else {
-					verifhook.Unbind(w.dir + "/pwm1_enable")
-				}
+				w.bindReg("pwm1_enable", verifhook.RegMode, v == "1")
 			}
 		case "hasrpm":
 			if w.kind == "hwmon" {
 				touch(w.dir+"/fan1_input", v == "1")
 			}
-			if v == "1" {
-				verifhook.Bind(w.dir+"/fan1_input", w.dev, verifhook.RegRpm)
-			} else {
-				verifhook.Unbind(w.dir + "/fan1_input")
-			}
+			w.bindReg("fan1_input", verifhook.RegRpm, v == "1")
 		}
 	}
 	if w.cmd != nil {
@@ -238,20 +295,29 @@ func init() {
 				cleanups = append(cleanups, func() { os.RemoveAll(d) })
 			}
 			if curWorld != nil {
-				verifhook.Unbind(curWorld.dir + "/pwm1")
-				verifhook.Unbind(curWorld.dir + "/pwm1_enable")
-				verifhook.Unbind(curWorld.dir + "/fan1_input")
+				curWorld.unbindAll()
 				os.RemoveAll(curWorld.dir)
+				for _, d := range append([]string{curWorld.real}, curWorld.old...) {
+					if d != "" {
+						os.RemoveAll(d)
+					}
+				}
 			}
 			worldCounter++
 			dir := fmt.Sprintf("%s/w%d", worldDirBase, worldCounter)
-			_ = os.MkdirAll(dir, 0755)
 			w := &world{dir: dir, kind: a.str("kind", "hwmon")}
+			if w.kind == "cmd" {
+				_ = os.MkdirAll(dir, 0755)
+			} else {
+				w.real = dir + ".r0"
+				_ = os.MkdirAll(w.real, 0755)
+				_ = os.Symlink(w.real, dir)
+			}
 			touch(dir+"/pwm1", true)
 			w.dev = &verifhook.Device{Mode: 2}
-			verifhook.Bind(dir+"/pwm1", w.dev, verifhook.RegPwm)
-			verifhook.Bind(dir+"/pwm1_enable", w.dev, verifhook.RegMode)
-			verifhook.Bind(dir+"/fan1_input", w.dev, verifhook.RegRpm)
+			for _, r := range worldRegs {
+				w.bindReg(r.name, r.reg, true)
+			}
 			if w.kind == "hwmon" {
 				touch(dir+"/pwm1_enable", a.bool("hasmode", true))
 				touch(dir+"/fan1_input", a.bool("hasrpm", true))
@@ -332,11 +398,17 @@ func init() {
 			}()
 			out := "res=" + res + " log=" + w.takeLog() + " " + w.state()
 			w.dev.RpmGate = nil
+			// fail=1: the slow RPM read the measurement is waiting for ends in an error
+			oldRead := w.dev.RpmRead
+			if a.bool("fail", false) {
+				w.dev.RpmRead = verifhook.ReadErrOther
+			}
 			close(gate)
 			select {
 			case <-pollDone:
 			case <-time.After(5 * time.Second):
 			}
+			w.dev.RpmRead = oldRead
 			return out
 		case "w.setmap":
 			// a new PWM map is installed on the SAME controller the way computePwmMap does: assign, then derive the
@@ -384,6 +456,8 @@ func init() {
 				}
 			}()
 			return "res=" + res + " log=" + w.takeLog() + " " + w.state()
+		case "w.parallel":
+			return wParallel(a)
 		case "w.setpwm":
 			w := curWorld
 			var res string
